@@ -20,6 +20,37 @@ CLAIMED = {
             "Trusted: the ordered-list model in engines/dimsim.py; dimensions compared by (letter, name, items, dtype). "
             "No threads/clock/I-O exist for this property; the simulated nondeterminism is the operation order and operand aliasing.",
             "5.2"),
+    "C05": ("arraysim", "exploration",
+            "deterministic simulation: seeded assignment histories on a shared array pool vs by-label reference model, ill-formed calls injected",
+            "Seeded search over histories of public-API operations on a shared pool of arrays (operands are products of the history: views, "
+            "einsum-transposed views, sources overlapping the target, results of failed calls). At every target[key] = rhs step the by-label "
+            "reference (explicit loops over label tuples) decides: dims/shape kept, entries outside the addressed region unchanged, FlodymArray "
+            "source summed by label or rejected when it lacks a region dimension, number fills the region, whole-array ndarray must have the exact "
+            "shape, assigned ndarray is copied. Sampling, not proof.",
+            "Trusted: the reference model in engines/arrayworld.py + oracle_c05; integer-valued data so that sums are exact. List keys with a "
+            "FlodymArray source and keyed ndarray sources (beyond dims/outside-region/copy) are not asserted.",
+            "5.1"),
+    "C13": ("arraysim", "fault_enumeration",
+            "deterministic simulation with fault injection: ill-formed calls (every wrong-shape variant) and sys.settrace line-event interrupts inside operations; invariants after every step",
+            "Histories as for C05, with faults: every wrong-shape ndarray variant handed to constructors/set_values/[...]=, ill-formed stock and "
+            "lifetime-model constructions, ill-formed keys, damaged DataFrames; the shape invariant is re-checked on every reachable array after "
+            "every step; any non-injected exception must leave every reachable array bitwise unchanged; sweep tasks enumerate the line-event "
+            "crash points (MemoryError / KeyboardInterrupt raised by a sys.settrace injector) of one mutating operation per sampled history and "
+            "demand the shape invariant afterwards. Fault space per sampled operation enumerated (all shape variants exist as generator choices; "
+            "all crash points of the chosen op up to a cap), histories sampled.",
+            "Trusted: snapshots compare values bitwise + dims by (letter,name,items,dtype). After an injected interrupt only the shape invariant "
+            "is demanded. Crash points are Python line boundaries inside flodym's own files.",
+            "5.1"),
+    "C15": ("arraysim", "exploration",
+            "deterministic simulation: seeded histories with deep snapshots of all inputs and write-through probes (values and dimension sets) on every returned array",
+            "Histories as for C05. For every operation that is not explicitly in place every reachable array and every raw input (ndarray, DataFrame, "
+            "DimensionSet) is compared with its pre-step snapshot, whether the call returned or raised. For results of copy, arithmetic, cast_to, "
+            "full_like, slice reads and split: np.shares_memory must be false and a sentinel written into the result (and into each source) must not "
+            "show up on the other side. For every new array: its DimensionSet is not the source's object and an in-place append/drop on either "
+            "side does not show on the other. An ndarray assigned through [] is mutated afterwards and must not reach the target.",
+            "Trusted: snapshot comparison; the probes restore what they wrote. Aliasing that the property does not forbid (sum_to without reduction, "
+            "FlodymArray(dims, values=nd)) is not flagged.",
+            "5.1"),
 }
 
 PLANNED = {}
